@@ -147,10 +147,44 @@ func New(opts Options) (CommitLog, error) {
 		return nil, err
 	}
 
+	// The checkpoint file is written after the log, so after a hard failure it
+	// can also be behind the log and lack the leader epochs of the newest
+	// messages. Recover those from the active segment.
+	if err := l.recoverLatestLeaderEpochs(); err != nil {
+		return nil, err
+	}
+
 	go l.checkpointHWLoop()
 	go l.cleanerLoop()
 
 	return l, nil
+}
+
+// recoverLatestLeaderEpochs assigns the leader epochs of the messages in the
+// active segment that are newer than the latest epoch in the cache.
+func (l *commitLog) recoverLatestLeaderEpochs() error {
+	var (
+		seg     = l.activeSegment()
+		last    = l.leaderEpochCache.LastLeaderEpoch()
+		e       entry
+		headers = make([]byte, msgSetHeaderLen)
+		count   = seg.Index.CountEntries()
+	)
+	for i := int64(0); i < count; i++ {
+		if err := seg.Index.ReadEntryAtLogOffset(&e, i); err != nil {
+			return errors.Wrap(err, "failed to read index entry")
+		}
+		if _, err := seg.ReadAt(headers, e.Position); err != nil {
+			return errors.Wrap(err, "failed to read message headers")
+		}
+		if epoch := messageSet(headers).LeaderEpoch(); epoch > last {
+			if err := l.leaderEpochCache.Assign(epoch, e.Offset); err != nil {
+				return err
+			}
+			last = epoch
+		}
+	}
+	return nil
 }
 
 func (l *commitLog) init() error {
